@@ -117,6 +117,11 @@ fn main() {
             let ctx = Ctx { prop: id.clone(), tier, seed, workers };
             start_watchdog(if tier == Tier::Quick { wd / 4 } else { wd }, id.clone());
             let rep = Report::new(&id);
+            // C17 / C19: another, smaller CL ciphersuite is used before anything else in this process (also before the
+            // regression replays); the checks record it in their notes
+            if id == "C17" || id == "C19" {
+                let _ = zkverif::cl::other_suite_first();
+            }
             // regressions first
             let rdir = format!("{}/regressions/{}", verif_dir(), id);
             let mut regs: Vec<_> = std::fs::read_dir(&rdir)
